@@ -44,7 +44,7 @@ def ref_parse(text, whitespace="all", autoescape="xhtml_escape"):
         if value:
             out.append(("text", value, st.ws))
 
-    def parse(in_block, in_loop, open_line):
+    def parse(in_block, in_loop, open_line, outer_loop=None):
         out = []
         while True:
             i = st.pos
@@ -93,6 +93,8 @@ def ref_parse(text, whitespace="all", autoescape="xhtml_escape"):
                 if in_block is None or in_block not in _INTER[op]:
                     raise RefError(op + " outside its block", start_line, end_line)
                 out.append(("inter", contents, start_line))
+                if op == "else" and (in_block == "for" or in_block == "while"):
+                    in_loop = outer_loop      # the else clause of a loop is outside that loop
             elif op == "end":
                 if in_block is None:
                     raise RefError("extra end", start_line, end_line)
@@ -125,7 +127,7 @@ def ref_parse(text, whitespace="all", autoescape="xhtml_escape"):
                     out.append(("module", "_tt_modules." + suffix, start_line))
             elif op in _NEST:
                 if op == "for" or op == "while":
-                    body = parse(op, op, start_line)
+                    body = parse(op, op, start_line, in_loop)
                 elif op == "apply":
                     body = parse(op, None, start_line)
                 else:
